@@ -120,7 +120,15 @@ def run_init_and_accessors(ctx, mods):
                                 o.violated(own_init, stores[-1], f"`{ci.name}.__init__` no longer stores {pp}[{spec['key']}] into `self.{a}`: the caller's setting is ignored "
                                                                   f"(the attribute keeps `{txt(stores[-1].value)[:40]}`)")
                             else:
-                                o.undecided(f"`self.{a}` is not assigned from {pp}[{spec['key']}] in a recognised way", own_init, stores[-1])
+                                # stored straight from ANOTHER key of the same parameter dict, under the test for its own key: a copy-paste slip
+                                other = [n for n in stores if isinstance(isc.resolve(n.value), ast.Subscript) and txt(isc.resolve(n.value).value) == pp
+                                         and txt(isc.resolve(n.value).slice) != spec["key"] and txt(isc.resolve(n.value).slice).split(".")[0] == spec["key"].split(".")[0]]
+                                if other:
+                                    bad = True
+                                    o.violated(own_init, other[-1], f"`self.{a}` is stored from {pp}[{txt(isc.resolve(other[-1].value).slice)}], not from {pp}[{spec['key']}]: the caller's "
+                                                                     f"setting for {spec['key'].split('.')[-1]} is ignored (and a dictionary that gives only that key raises)", shape_free=True)
+                                else:
+                                    o.undecided(f"`self.{a}` is not assigned from {pp}[{spec['key']}] in a recognised way", own_init, stores[-1])
                             continue
                         if spec.get("guarded"):
                             got = _rules.path_term(isc.parents, isc, hits[-1])
@@ -193,6 +201,37 @@ def run(ctx):
                                     found = True
                                     o.violated(m, n, f"S1: `{ci.name}.{a}` is a class-level mutable container written through `self.{a}`: it is shared by every {ci.name} object, "
                                                      "so one object's (or one call's) values are silently re-used by another", shape_free=True)
+            # ---- S8: a mutable default argument that becomes state.  The default object is created ONCE, when the function is
+            # defined: storing it on self (then filling it), mutating it, or returning it shares it between every call / object
+            # that relies on the default.  A default that is only read is harmless and is not reported.
+            for f8 in [f_ for f_ in prog.all_functions() if f_.module is mi]:
+                a8 = f8.node.args
+                pos = a8.posonlyargs + a8.args
+                pairs = list(zip(pos[len(pos) - len(a8.defaults):], a8.defaults)) + [(k_, d_) for k_, d_ in zip(a8.kwonlyargs, a8.kw_defaults) if d_ is not None]
+                for arg_, dflt in pairs:
+                    if not _mutable_literal(dflt):
+                        continue
+                    nm8 = arg_.arg
+                    sc8 = Scope(f8.node)
+                    if len(sc8.assigns.get(nm8, [])) > 0:
+                        continue        # re-bound inside (`x = x or []` style): not followed
+                    how = None
+                    for n in astx.walk_fn(f8.node):
+                        if isinstance(n, (ast.Assign, ast.AnnAssign)) and isinstance(getattr(n, "value", None), ast.Name) and n.value.id == nm8:
+                            tgts = n.targets if isinstance(n, ast.Assign) else [n.target]
+                            if any(astx.self_attr(t_) is not None or isinstance(t_, ast.Subscript) for t_ in tgts):
+                                how = (n, f"stored as `{txt(tgts[0])}`")
+                        if isinstance(n, ast.Call) and isinstance(n.func, ast.Attribute) and n.func.attr in astx.MUTATOR_METHODS and isinstance(n.func.value, ast.Name) and n.func.value.id == nm8:
+                            how = how or (n, f"modified by `{txt(n)[:50]}`")
+                        if isinstance(n, (ast.Assign, ast.AugAssign)) and any(isinstance(t_, ast.Subscript) and isinstance(t_.value, ast.Name) and t_.value.id == nm8
+                                                                              for t_ in (n.targets if isinstance(n, ast.Assign) else [n.target])):
+                            how = how or (n, f"written by `{txt(n)[:50]}`")
+                        if isinstance(n, ast.Return) and isinstance(n.value, ast.Name) and n.value.id == nm8:
+                            how = how or (n, "returned to the caller")
+                    if how is not None:
+                        found = True
+                        o.violated(f8, how[0], f"S8: the mutable default `{nm8}={txt(dflt)}` of `{f8.qualname}` is {how[1]}: the one default object is shared by every call / object that "
+                                               "does not pass the argument, so what one of them puts in is seen by the next", shape_free=True)
             # ---- S2 / S3 on every function of the module
             funcs = [f for f in prog.all_functions() if f.module is mi]
             memo_tables = set()
